@@ -2,7 +2,7 @@ SPECIFICATION Spec
 CONSTANTS
   MaxObj = 3
   MaxHandles = 2
-  ReleaseFirst = FALSE
-  Cascade = FALSE
-INVARIANTS QuiescentIsEmpty
+  ReleaseFirst = TRUE
+  Cascade = TRUE
+INVARIANTS NoDangling
 CHECK_DEADLOCK FALSE
